@@ -98,7 +98,16 @@ def check(chk: Check) -> None:
                         v = freeze(e.value)
                         dd = dd + (v[1] if e.op == '+' else -v[1]) if (dd != '?' and is_const(v) and isinstance(v[1], int) and e.op in '+-') else '?'
                     elif e.kind == 'store_attr' and e.attr == depth and freeze(e.obj) == ('attr', t2, 'lexer'):
-                        dd = '?'
+                        v = freeze(e.value)
+                        cur = ('attr', ('attr', t2, 'lexer'), depth)
+                        # depth = depth + 1 / depth - 1 / 1 + depth
+                        if dd != '?' and isinstance(v, tuple) and v[:1] == ('binop',) and v[1] in ('+', '-') and (
+                                (v[2] == cur and is_const(v[3]) and isinstance(v[3][1], int)) or
+                                (v[1] == '+' and v[3] == cur and is_const(v[2]) and isinstance(v[2][1], int))):
+                            k_ = v[3][1] if v[2] == cur else v[2][1]
+                            dd = dd + (k_ if v[1] == '+' else -k_)
+                        else:
+                            dd = '?'
                 deltas.add(dd)
             want = 1 if tx in OPEN else -1
             ok = deltas == {want} and r.returns_token == 'always'
